@@ -136,12 +136,13 @@ R.contract(
 )
 R.contract(
     "Individual.get_fitness",
+    inline=True,
     file=IND,
     params=dict(self="Individual", problem="Problem?"),
     returns="Fitness",
     requires={"evaluated": "problem is not None and problem in self.fitness_store"},
     ensures={"lookup": "same(result, self.fitness_store[problem])"},
-    allocates=True,
+    allocates=False,
     props=["C13", "C12"],
 )
 R.contract(
